@@ -1,8 +1,11 @@
 """C09 — strings compare and hash by content however and whenever they were created.
 
 Ordered pairs (p, q) over the producer alphabet {literal, concatenation, interpolation,
-slice, split element, characters folded from iteration, downCase, upCase, trim, number
-formatting, constant exported by another module, key read back from a map}, instantiated
+slice, split element, characters folded from iteration, downCase, trim/trimStart/trimEnd,
+str, number formatting/interpolation/parse, constant exported by another module, key read
+back from a map, closure parameter, error message, iterator first/last, regexp capture}
+plus the special contents produced by str() of booleans, nil, lists, numbers and by class
+names, instantiated
 so that the contents are equal and so that they differ in one character; optional prefix
 "create an equal string in a call, drop it, force a full collection"; observations
 == != <= >= , map lookups in both directions, list.has/index, tuple.has.
@@ -35,15 +38,25 @@ def producers(t):
         "mapkey": "{'%s': 1}.iter().first()[0]" % t,
         "param": "(|s| s + '')('%s')" % t,
     }
+    out["trimStart"] = "'  %s'.trimStart()" % t
+    out["trimEnd"] = "'%s \t'.trimEnd()" % t
+    out["str"] = "'%s'.str()" % t
+    out["errmsg"] = "Error('%s').message" % t
+    out["first"] = "['%s', 'z'].iter().first()" % t
+    out["split_last"] = "'q,%s'.split(',').last()" % t
+    out["regexp"] = "RegExp('x(.+)').captures('x%s')[1]" % t
+    out["tuple_iter"] = "('z', '%s').iter().skip(1).first()" % t
     if t.isdigit():
         out["numstr"] = "%s.str()" % t
+        out["numinterp"] = "'${%s}'" % t
+        out["parse_str"] = "Number.parse('%s.0').str()" % t
     return out
 
 
 def program(pname, qname, t, t2, equal, prefix):
     P = producers(t)
     Q = producers(t if equal else t2)
-    src = "import self.consts:{KA, KB};\n"
+    src = "import self.consts:{KA, KB};\nimport std.regexp:{RegExp};\n"
     if prefix:
         src += "fn tmp() { let t = %s; return t.len(); }\nprint(tmp());\nprint('@@gc full');\nlet pad = [0];\n" % Q[qname].replace("KA", "'%s'" % t).replace("KB", "'%s'" % t2)
     src += "let p = %s;\nlet q = %s;\n" % (P[pname], Q[qname] if equal else Q[qname].replace("KA", "KB"))
@@ -122,13 +135,32 @@ class C09(Check):
         return Verdict(True, nontriv, "ok:%s" % pr["equal"])
 
 
+SPECIAL = [("true", ["'true'", "true.str()", "'${true}'", "'tr' + 'ue'", "(1 == 1).str()"]), ("nil", ["'nil'", "nil.str()", "'${nil}'", "[].pop().str()"]),
+           ("[1]", ["'[1]'", "[1].str()", "'${[1]}'", "'[' + 1.str() + ']'"]), ("Foo", ["'Foo'", "Foo.name()", "Foo().cls().name()", "'F' + 'oo'"]),
+           ("Error", ["'Error'", "Error('x').cls().name()", "Error.name()"]), ("-0", ["'-0'", "(0 * -1).str()", "'${0 * -1}'"]), ("inf", ["'inf'", "(1 / 0).str()"]), ("1.5", ["'1.5'", "1.5.str()", "(3 / 2).str()", "'${1.5}'"])]
+
+
+def special_programs():
+    out = []
+    for content, exprs in SPECIAL:
+        for pe, qe in itertools.product(exprs, repeat=2):
+            src = ("import self.consts:{KA, KB};\nclass Foo {}\nlet p = %s;\nlet q = %s;\n"
+                   "print(p == q, p != q, p <= q, p >= q, q == p, p < q, p > q);\n"
+                   "let m = {}; m[p] = 'P'; print(m.has(q), m.get(q), m.len()); m[q] = 'Q'; print(m.len(), m[p], m[q]);\n"
+                   "print([p].has(q), [p].index(q), (p, 1).has(q), (q, p).index(p), {q: 1}.has(p));\n"
+                   "let again = %s; print(again == p, m.get(again), p.len(), q.len());\nprint(p, q);\n" % (pe, qe, pe))
+            out.append({"p": pe, "q": qe, "t": content, "equal": True, "prefix": False, "light": True,
+                        "files": {"/v/main.lay": src, "/v/consts.lay": "export let KA = 'a';\nexport let KB = 'b';\n"}, "expected": expected(content, content, True)})
+    return out
+
+
 def build_programs(tier):
-    progs = []
+    progs = special_programs()
     for t, t2 in TARGETS:
         names = list(producers(t))
         light = (t != "foo")
         for pn, qn in itertools.product(names, repeat=2):
-            if light and not (pn in ("literal", "concat", "numstr", "chars", "mapkey") or qn in ("numstr", "slice")):
+            if light and not (pn in ("literal", "concat", "numstr", "chars", "mapkey", "numinterp", "parse_str", "regexp") or qn in ("numstr", "slice", "errmsg")):
                 continue
             for equal in (True, False):
                 for prefix in (False, True):
